@@ -99,10 +99,17 @@ def replay_case(path: str) -> int:
             if body.get("teal") and res[1] != body["teal"]:
                 print("NOTE: the TEAL emitted now differs from the recorded one; using the current one")
             body["teal"] = res[1]
+        from recipes import to_sexp
+        body["recipe"] = to_sexp(prog)      # rendered afresh (keys re-established for this program)
     if "recipe" in body and body.get("teal"):
         print(d.ask(f"prog p {body['recipe']}"))
         print(d.ask(f"teal t {body['teal'].encode('utf-8').hex()}"))
-        print("validate:", d.ask(f"validate p t {body['version']}"))
+        if "(subs)" in body["recipe"] and "(wideratio " not in body["recipe"]:
+            print("validate:", d.ask(f"validate p t {body['version']}"))
+        else:
+            opts = body.get("options", {})
+            fp = opts.get("frame_pointers", body["version"] >= 8)
+            print("validateprog:", d.ask(f"validateprog p t {body['version']} {1 if fp else 0}"))
         if "ctx" in body:
             print(d.ask(f"ctx c {body['ctx']}"))
             print("source :", d.ask("eval p c 4000"))
